@@ -290,6 +290,33 @@ Definition startup (r : robot) : res started :=
     end
   end.
 
+(* ---- the driver station while the robot program starts ---------------- *)
+(* What wpilib.DriverStation reports while robotInit() / _create_components()
+   run: isFMSAttached() (a competition field is connected -- the robot code may
+   well be (re)started then) and isEnabled(). *)
+Record env := { fms_attached : bool; ds_enabled : bool }.
+
+(* MagicRobot.onException, the one place of magicrobot.py where an error path
+   reads the driver station, as the handler of
+       try: <x>  except: self.onException()
+   "if not wpilib.DriverStation.isFMSAttached(): raise" -- otherwise the error
+   is reported to the driver station and the handler RETURNS: the block is
+   abandoned where it failed ([dflt] is what it leaves behind) and execution
+   goes on. *)
+Definition on_exception {A : Type} (e : env) (x : res A) (dflt : A) : res A :=
+  match x with
+  | Ok a => Ok a
+  | Err err => if fms_attached e then Ok dflt else Err err
+  end.
+
+(* _create_components in the environment e.  None of its statements is inside
+   a try block -- not the creation loop, not the component loop, not the
+   autonomous-mode loop -- and neither it nor _create_component, _setup_vars or
+   inject.py read the driver station: e is not consulted and every error leaves
+   robotInit().  (Proofs: startup_env_irrelevant, mode_fault_fails_in; the
+   start-up that would consult it is Proofs.startup_tolerant.) *)
+Definition startup_in (e : env) (r : robot) : res started := startup r.
+
 (* The order in which things happen during a successful startup. *)
 Inductive event :=
 | EvCtor (c : name) (kwargs : list (name * obj))    (* ctyp( **kwargs) *)
@@ -487,6 +514,24 @@ Definition check_case (pairs : list (cls * cls)) (r : robot) (ir : impl_result) 
   | Err EInject, 2 => negb (ir_strict ir)
   | Err EType, 1 => negb (ir_strict ir)
   | _, _ => false
+  end.
+
+(* the same with the state of the driver station the implementation was started in *)
+Definition check_case_in (pairs : list (cls * cls)) (e : env) (r : robot) (ir : impl_result) : bool :=
+  match startup_in (sub_of pairs) e r, ir_outcome ir with
+  | Ok s, 0 => obs_eqb (observe r s) (ir_obs ir)
+  | Err EInject, 1 => true
+  | Err EType, 2 => true
+  | Err EInject, 2 => negb (ir_strict ir)
+  | Err EType, 1 => negb (ir_strict ir)
+  | _, _ => false
+  end.
+
+Fixpoint bad_in (i : nat) (l : list (list (cls * cls) * env * robot * impl_result)) : list nat :=
+  match l with
+  | [] => []
+  | (pairs, e, r, ir) :: rest =>
+    if check_case_in pairs e r ir then bad_in (S i) rest else i :: bad_in (S i) rest
   end.
 
 Fixpoint bad (i : nat) (l : list (list (cls * cls) * robot * impl_result)) : list nat :=
